@@ -160,7 +160,7 @@ def build_sched(root=SCHED, timeout=3000):
 # scenarios
 # ---------------------------------------------------------------------------------------------
 
-CALL_OPS = ("setb", "setbs")
+CALL_OPS = ("setb", "setbs", "flink", "funlink", "fsew", "funsew")
 
 
 def is_call(tx):
@@ -454,6 +454,36 @@ def setbs_scenarios():
     return out
 
 
+def force_scenarios():
+    """the `force_` variants are public calls running their own transaction: a 1-sew and a 2-sew of the SAME dart issued by two
+    threads (every serial order merges the vertex at the head of the dart with the vertex of the dart it is 2-sewn to), force
+    calls against transaction blocks, and the 3-D counterparts (1-sew vs 2-sew / 3-sew of the same dart)."""
+    out = []
+    pts = {1: (0, 0), 2: (1, 0), 3: (1, 1), 4: (0, 1), 5: (2, 2)}
+    for mask in (0, 7):
+        init = [gens.load_line(2, 5, mask, rows2(5, [], open_chains=[[3, 4]]), [0] * 6)]
+        init += [f"wv {d} {p[0]} {p[1]}" for d, p in pts.items()]
+        init += [f"wa {st} {d} {100 * st + d}" for st in (1, 2, 3) if (mask >> (st - 1)) & 1 for d in pts]
+        out.append(Scenario(f"fsew1-vs-fsew2-m{mask}", init, [[["fsew 1 1 2"]], [["fsew 2 1 3"]]], {"full_cap": 50000}, tags={"force"}))
+        out.append(Scenario(f"fsew1-vs-sew2-m{mask}", init, [[["fsew 1 1 2"]], [["sew 2 1 3"]]], {"full_cap": 50000}, tags={"force"}))
+        out.append(Scenario(f"sew1-vs-fsew2-m{mask}", init, [[["sew 1 1 2"]], [["fsew 2 1 3"]]], {"full_cap": 50000}, tags={"force"}))
+        out.append(Scenario(f"fsew1-vs-fsew2-obs-m{mask}", init, [[["fsew 1 1 2"], ["vid 2", "rv 2"]], [["fsew 2 1 3"], ["funsew 2 1"]]],
+                            {"full_cap": 50000}, tags={"force"}))
+        glued = init + ["fsew 1 1 2", "fsew 2 1 3"]
+        out.append(Scenario(f"funsew1-vs-funsew2-m{mask}", glued, [[["funsew 1 1"]], [["funsew 2 1"]]], {"full_cap": 50000}, tags={"force"}))
+    pts3 = {1: (0, 0, 0), 2: (1, 0, 0), 3: (1, 1, 0), 4: (0, 1, 0), 5: (2, 2, 0), 6: (0, 0, 1)}
+    for mask in (0, 31):
+        init = [gens.load_line(3, 6, mask, rows3(6, open_chains=[[3, 4]]), [0] * 7)]
+        init += ["wv %d %d %d %d" % ((d,) + p) for d, p in pts3.items()]
+        init += [f"wa {st} {d} {100 * st + d}" for st in range(1, 6) if (mask >> (st - 1)) & 1 for d in pts3]
+        out.append(Scenario(f"sew1-vs-sew2-3d-m{mask}", init, [[["sew 1 1 2"]], [["sew 2 1 3"]]], {"full_cap": 50000}, tags={"force", "3d"}))
+        out.append(Scenario(f"sew1-vs-sew3-3d-m{mask}", init, [[["sew 1 1 2"]], [["sew 3 1 5"]]], {"full_cap": 50000}, tags={"force", "3d"}))
+        out.append(Scenario(f"fsew1-vs-fsew2-3d-m{mask}", init, [[["fsew 1 1 2"]], [["fsew 2 1 3"]]], {"full_cap": 50000}, tags={"force", "3d"}))
+        out.append(Scenario(f"unsew1-vs-unsew2-3d-m{mask}", init + ["fsew 1 1 2", "fsew 2 1 3"], [[["unsew 1 1"]], [["unsew 2 1"]]],
+                            {"full_cap": 50000}, tags={"force", "3d"}))
+    return out
+
+
 # --- remeshing kernels -------------------------------------------------------------------------
 
 def normalize_init(lines, mask=0):
@@ -577,11 +607,11 @@ def scenarios(tier, seed):
     mid = {"preempt": 3, "cap": 300000 if quick else 1000000}
     deep = {"preempt": 3 if quick else 4, "cap": 300000 if quick else 1500000}
     hand = rmw_scenarios() + link_scenarios() + query_scenarios() + fan_scenarios() + three_d_scenarios() + d4_scenarios() + d3_scenarios() \
-        + setbs_scenarios() + remesh_scenarios()
+        + setbs_scenarios() + force_scenarios() + remesh_scenarios()
     for s in hand:
         if s.name in DEEP:
             s.params.update(deep)
-        elif s.tags & {"fan", "3d", "d4", "d3", "query"} and len(s.threads) == 2:
+        elif s.tags & {"fan", "3d", "d4", "d3", "query", "force"} and len(s.threads) == 2:
             s.params.update(mid)
     scs = hand
     rp = {} if quick else {"cap": 200000}
@@ -594,7 +624,7 @@ def scenarios(tier, seed):
     if not quick:
         # the hand-written scenarios again with long random / PCT tails
         for s in rmw_scenarios() + link_scenarios() + query_scenarios() + fan_scenarios() + three_d_scenarios() + d4_scenarios() + d3_scenarios() \
-                + setbs_scenarios() + remesh_scenarios():
+                + setbs_scenarios() + force_scenarios() + remesh_scenarios():
             s.name += "-tail"
             s.params = {"dfs": 0, "random": 5000, "pct": 5000}
             scs.append(s)
